@@ -115,6 +115,7 @@ def gen_size_case(real, rng, cid, mtu, lengths, loss_plan, later=(), lossy=None)
                 o = emit("build %s t=%d" % (e, t))
                 if o and o[0].startswith("pkt"):
                     kk = len(run.eps[e]["emits"]) - 1
+                    loss_plan.__dict__["pkt"] = glog[-1]["pkt"]          # for plans that look at what the datagram carries
                     lost = t < lossy_until and loss_plan(kk - 3, e, t - t0, [m[0] - 3 for m in glog[-1]["pkt"]["msgs"]])
                     if not lost:
                         emit("recv %s t=%d d=@%s:%d" % (p, t, e, kk))
